@@ -575,3 +575,39 @@ Definition generic_outcome (rs : list route) (handler ct : string) (wire_ok : bo
       | Some _ => if wire_ok then Exact (status_cls (Some (rt_status r))) else AnyError
       end
   end.
+
+(* ---- cases of the routes predicted from the route table (harness stream "generic") ---- *)
+Record greq := {
+  g_handler : string;               (* controller constructor serving the path *)
+  g_ce : string; g_gz_ok : bool;    (* Content-Encoding header; for gzip: the header parses *)
+  g_ct : string;                    (* Content-Type header *)
+  g_wire_ok : bool                  (* the decoder of the selected parser accepts the body *)
+}.
+Definition g_predict (rs : list route) (q : greq) : expect :=
+  match content_encoding (g_ce q) (g_gz_ok q) with
+  | CeStatus c => Exact c
+  | CeContinue => generic_outcome rs (g_handler q) (g_ct q) (g_wire_ok q)
+  end.
+(* a description of the INPUT: unsupported/undecodable Content-Encoding, a Content-Type the route has no parser for,
+   a body the decoder rejects *)
+Definition g_malformed (rs : list route) (q : greq) : bool :=
+  match content_encoding (g_ce q) (g_gz_ok q) with
+  | CeStatus _ => true
+  | CeContinue =>
+      match find_route rs (g_handler q) with
+      | None => false
+      | Some r => match route_dispatch r (g_ct q) with None => true | Some _ => negb (g_wire_ok q) end
+      end
+  end.
+Record gcase := { gc_id : Z; gc_req : greq; gc_obs : obs }.
+Definition g_spec_ok (rs : list route) (q : greq) (ob : obs) : bool :=
+  responded (ob_outcome ob) && ob_canary_ok ob
+  && (ob_alloc_kb ob <=? alloc_bound_kb (ob_body_kb ob))%Z
+  && match ob_outcome ob with O2xx => negb (g_malformed rs q) | _ => true end.
+Definition g_mismatches (rs : list route) (cs : list gcase) : list Z :=
+  map gc_id (filter (fun c => negb (accepts (g_predict rs (gc_req c)) (ob_outcome (gc_obs c)))) cs).
+Definition g_spec_violations (rs : list route) (cs : list gcase) : list Z :=
+  map gc_id (filter (fun c => negb (g_spec_ok rs (gc_req c) (gc_obs c))) cs).
+(* every modelled route answers 2xx on success *)
+Definition routes_succeed_2xx (rs : list route) : bool :=
+  forallb (fun r => (200 <=? rt_status r)%Z && (rt_status r <? 300)%Z) rs.
